@@ -677,9 +677,16 @@ def r3_records(chk):
                     got.setdefault(m, i)
                 # a1/a2 through the tuple unpack of (index(b.a1), index(b.a2))
                 un = [s for s in walk_no_nested(loop) if isinstance(s, ast.Assign) and isinstance(s.targets[0], ast.Tuple) and "self.atoms.index" in norm(s.value)]
-                chk.require(len(un) == 1 and isinstance(un[0].value, ast.Tuple), f"{f.key}: bond endpoint index computation not found")
-                tnames = [norm(t) for t in un[0].targets[0].elts]
-                srcs = [norm(v.args[0]).split(".")[-1] if isinstance(v, ast.Call) else "?" for v in un[0].value.elts]
+                one = [s for s in walk_no_nested(loop) if isinstance(s, ast.Assign) and isinstance(s.targets[0], ast.Name) and isinstance(s.value, ast.Call) and norm(s.value.func) == "self.atoms.index"]
+                if len(un) == 1 and isinstance(un[0].value, ast.Tuple):
+                    tnames = [norm(t) for t in un[0].targets[0].elts]
+                    srcs = [norm(v.args[0]).split(".")[-1] if isinstance(v, ast.Call) else "?" for v in un[0].value.elts]
+                elif not un and len(one) == 2:
+                    # the same, written as two assignments
+                    tnames = [norm(s.targets[0]) for s in one]
+                    srcs = [norm(s.value.args[0]).split(".")[-1] for s in one]
+                else:
+                    raise AnalysisError(f"{f.key}: bond endpoint index computation not found")
                 colmap = {}
                 for i, c in enumerate(cols):
                     if c["kind"] == "field" and isinstance(c["expr"], ast.BinOp) and isinstance(c["expr"].left, ast.Name) and c["expr"].left.id in tnames:
